@@ -196,7 +196,8 @@ def gen_case(rng, cid):
     drv = rng.choice(['ci', 'ci', 'cf', 'cf', 'fd_fraction', 'fd_value', 'fd_fraction'])
     n_iter = rng.choice([0, 1, 1, 2, 2, 3, 5, 10, 10])
     mref = P['ref_mass']
-    c = {'id': cid, 'engine': eng, 'params': P, 'pts': pts, 'ds': ds, 'scalar_dx': scalar, 'driver': drv, 'n_iter': n_iter}
+    c = {'id': cid, 'engine': eng, 'params': P, 'pts': pts, 'ds': ds, 'scalar_dx': scalar, 'driver': drv, 'n_iter': n_iter,
+         'flag_kind': rng.choice(['bool', 'bool', 'int8', 'int64', 'list-bool', 'list-int', 'float'])}
     if drv == 'ci':
         c['m'] = mref * rng.uniform(0.8, 1.15)
     elif drv == 'cf':
@@ -260,8 +261,14 @@ def arrays(c):
     import numpy as np
     p = c['pts']
     col = lambda k: np.array([float(x[k]) for x in p])  # noqa: E731
+    # the cruise flags as a caller may hold them: a bool array, 0/1 integers of either width, or plain Python lists
+    fk = c.get('flag_kind', 'bool')
+    flags = [bool(x['cruise']) for x in p]
+    cruise = {'bool': lambda: np.array(flags), 'int8': lambda: np.array(flags, dtype='int8'),
+              'int64': lambda: np.array(flags, dtype='int64'), 'list-bool': lambda: list(flags),
+              'list-int': lambda: [int(f) for f in flags], 'float': lambda: np.array(flags, dtype='float64')}[fk]()
     return dict(temperature=col('T'), altitude=col('alt'), v_tas=col('v'), rocd=col('rocd'), acceleration=col('acc'),
-                in_cruise=np.array([bool(x['cruise']) for x in p]), groundspeed=col('gs'),
+                in_cruise=cruise, groundspeed=col('gs'),
                 segment_distance=(float(c['ds'][0]) if c['scalar_dx'] and c['ds'] else np.array([float(d) for d in c['ds']])))
 
 
@@ -506,6 +513,7 @@ def process(chk: Check, cases, flags):
                                                                                                  'T0': c['pts'][0]['T']},
                  'error' not in io and len(c['pts']) > 2)
         chk.count(f'case:{c["engine"]}/{c["driver"]}/n_iter={c["n_iter"]}/{"scalar" if c["scalar_dx"] else "array"}-dx')
+        chk.count('cruise-flags-as:' + c.get('flag_kind', 'bool'))
         if 'twin_of' in c:
             chk.count('second-flight-on-same-model-object')
         if 'error' in io:
